@@ -49,6 +49,10 @@ type memCase struct {
 	// TopEnd: a single call on the range of MaxW bytes that ENDS exactly at 2^64 (it does
 	// not wrap): load | missing | store | new (Bytes created with a block there, then loaded)
 	TopEnd string `json:"top_end,omitempty"`
+	// Far (with Top): the memory also holds a 2-byte block near address 0, more than 2^63
+	// away from the window just below 2^64: orderings and searches have to cope with both
+	// halves of the address space at once
+	Far bool `json:"far,omitempty"`
 }
 
 // memTopEndRun: the last MaxW bytes of the address space, [2^64-w, 2^64).
@@ -232,6 +236,7 @@ func (b blk) Bytes() []byte     { return b.bytes }
 func ivString(m interval.Map[model.Addr], off model.Addr) (string, string) {
 	var sb strings.Builder
 	var prevEnd model.Addr
+	var rel [][2]int64
 	bad := ""
 	for i, iv := range m.Intervals() {
 		if !(iv.Begin() < iv.End()) {
@@ -241,7 +246,13 @@ func ivString(m interval.Map[model.Addr], off model.Addr) (string, string) {
 			bad = "intervals not sorted/disjoint/non-adjacent"
 		}
 		prevEnd = iv.End()
-		fmt.Fprintf(&sb, "[%d,%d)", int64(iv.Begin()-off), int64(iv.End()-off))
+		rel = append(rel, [2]int64{int64(iv.Begin() - off), int64(iv.End() - off)})
+	}
+	// printed in the order of the relative addresses (a block near address 0 of a memory whose
+	// window lies just below 2^64 comes first in absolute and last in relative terms)
+	sort.Slice(rel, func(i, j int) bool { return rel[i][0] < rel[j][0] })
+	for _, r := range rel {
+		fmt.Fprintf(&sb, "[%d,%d)", r[0], r[1])
 	}
 	return sb.String(), bad
 }
@@ -481,6 +492,16 @@ func memRun(c memCase) (*eng.Fail, int) {
 		mem = memory.NewOverlay(base, memory.NewSparse())
 	}
 
+	if c.Far && c.Top {
+		farAbs := model.Addr(0x40)
+		farRel := int(farAbs - off)
+		v := ir.ConstU(0x5a5b, 2)
+		p, stack := eng.Catch(func() { mem.Store(farAbs, v, 2) })
+		if p != nil {
+			return &eng.Fail{Sig: site + ".Store panic " + eng.PanicSite(stack), What: fmt.Sprintf("%s.Store(0x40, %s, 2) panics: %v", site, ir.Show(v), p), Case: c}, 0
+		}
+		mdl.store(farRel, v, 2)
+	}
 	lo := 0
 	if !c.NoInitialReads || len(c.Ops) == 0 {
 		if f := surface(site, mem, mdl, off, c, lo); f != nil && len(c.Ops) == 0 {
@@ -670,7 +691,7 @@ func memDo(r *eng.Run, c memCase) {
 func init() {
 	checks["C14"] = eng.Check{
 		Hist:        true,
-		Rule:        "Sparse memory: every history (no state merging) of <=2 stores over the full alphabet (addr 0..5 x width 1..4 x value kinds {exact constant, symbolic register, value narrower than the write, value wider than the write, wide symbolic}) and of 3 stores (quick: addr 0..4, widths 1..4, kinds const/sym; thorough: full alphabet; thorough also 4 stores over addr 0..3, widths 1..3, const/sym; plus histories of 2..3 stores ending with a store of exactly the bytes the memory already holds there), on a fresh real Sparse each; after each history every Load(a,w), Missing(a,w) for a in 0..8, w in 1..4 and Blocks() compared with a byte map (values under 3 valuations); digests of all values handed in / returned mid-history re-checked at the end. Between the stores of a history the memory is read as well (Load and Missing at the narrowest and widest width from every address, Blocks()), so that anything cached by a read has to survive the next store; histories of 2 stores are additionally run with no reads between the stores and with no reads before the end; wide loads (every width 1..72) over three layouts of many blocks. Repeated with all addresses shifted to just below 2^64; single Load / Missing / Store calls on the ranges of 1, 2 and 4 bytes that end exactly at 2^64. Non-trivial = history of >=2 stores.",
+		Rule:        "Sparse memory: every history (no state merging) of <=2 stores over the full alphabet (addr 0..5 x width 1..4 x value kinds {exact constant, symbolic register, value narrower than the write, value wider than the write, wide symbolic}) and of 3 stores (quick: addr 0..4, widths 1..4, kinds const/sym; thorough: full alphabet; thorough also 4 stores over addr 0..3, widths 1..3, const/sym; plus histories of 2..3 stores ending with a store of exactly the bytes the memory already holds there), on a fresh real Sparse each; after each history every Load(a,w), Missing(a,w) for a in 0..8, w in 1..4 and Blocks() compared with a byte map (values under 3 valuations); digests of all values handed in / returned mid-history re-checked at the end. Between the stores of a history the memory is read as well (Load and Missing at the narrowest and widest width from every address, Blocks()), so that anything cached by a read has to survive the next store; histories of 2 stores are additionally run with no reads between the stores and with no reads before the end; wide loads (every width 1..72) over three layouts of many blocks. Repeated with all addresses shifted to just below 2^64 (the 2-store histories with an additional block near address 0, i.e. blocks in both halves of the address space); single Load / Missing / Store calls on the ranges of 1, 2 and 4 bytes that end exactly at 2^64. Non-trivial = history of >=2 stores.",
 		Assumptions: []string{"address ranges do not wrap around 2^64", "write widths 1..4 (wider writes are covered by a few hand-picked wide cases only)"},
 		Run: func(r *eng.Run) {
 			full := memAlpha(seq(0, 5), seq(1, 4), []string{"const", "sym", "narrow", "wide", "symwide"})
@@ -682,7 +703,7 @@ func init() {
 				top := top
 				memDo(r, memCase{Mem: "sparse", Top: top, MaxA: 8, MaxW: 4})
 				histories(r, full, 2, func(ops []memOp) {
-					memDoRW(r, memCase{Mem: "sparse", Ops: append([]memOp{}, ops...), Top: top, MaxA: 8, MaxW: 4})
+					memDoRW(r, memCase{Mem: "sparse", Ops: append([]memOp{}, ops...), Top: top, Far: top, MaxA: 8, MaxW: 4})
 				})
 				// stores of the value the memory already holds (no-op stores), last in the history
 				histories(r, same, 3, func(ops []memOp) {
@@ -711,10 +732,10 @@ func init() {
 					}
 				}
 			}
-			// hand-picked wide writes (value narrower than a write wider than 32 bytes)
-			for _, w := range []int{8, 16, 33, 40} {
+			// hand-picked wide writes up to 255 bytes (value narrower than a write wider than 32 bytes; byte offsets whose bit count exceeds 255)
+			for _, w := range []int{8, 16, 33, 40, 64, 255} {
 				for _, k := range []string{"const", "narrow", "sym", "byteval"} {
-					for _, a2 := range []int{0, 1, w - 1, w / 2, 31, 32} {
+					for _, a2 := range []int{0, 1, w - 1, w / 2, 31, 32, 33, 63, 64, 254} {
 						if a2 >= w {
 							continue
 						}
